@@ -204,10 +204,10 @@ def sdt_len(f, rep):
     else:
         data = st.fields['data']
         L = read_le(data, 4, 4); tot = seqlen(data.segs)
-        import sym as _s
-        _s.CTX = I.st.ranges
+        sym.CTX = I.st.ranges
         rep.ob('Sdt-minlen', 'sdt::Sdt::new', cmp('le', C(36), tot) == TRUE or equal(ite(cmp('le', C(36), tot), ONE, ZERO), ONE, [c for c, _ in I.st.facts])[0],
                'Sdt::new can build a table shorter than its 36-byte header', sp=fs['new']['sp'], detail={'length': show(tot), 'facts': [show(c) for c, _ in I.st.facts]})
+        sym.CTX = {}
         ok = L is not None and equal(L, tot, [c for c, _ in I.st.facts])[0]
         rep.ob('O-init', 'sdt::Sdt::new', ok, 'Sdt::new declares %s but holds %s bytes' % (show(L) if L else None, show(tot)), sp=fs['new']['sp'],
                detail={'declared': show(L) if L else None, 'held': show(tot), 'facts': [show(c) for c, _ in I.st.facts]})
@@ -230,7 +230,9 @@ def sdt_len(f, rep):
             if grew == ZERO:
                 # non-growing operation: bytes 4..8 may be overwritten by the caller (write at offset 4 is the API's purpose)
                 rep.ob('O-step', subj, True, detail={'growth': '0'}); continue
+            sym.CTX = I.st.ranges      # the len >= 36 invariant decides that the new bytes lie past the header
             L = read_le(data, 4, 4)
+            sym.CTX = {}
             ok = L is not None and equal(strip_trunc(L), strip_trunc(post_len))[0]
             rep.ob('O-step', subj, ok, 'after %s the table holds %s bytes but bytes 4..8 hold %s' % (name, show(post_len), show(L) if L else 'an unresolved value'), sp=b['sp'],
                    detail={'held': show(post_len), 'declared': show(L) if L else None})
